@@ -112,7 +112,7 @@ def reparam_histories(kind, depth=4, reads=("heights", "bl", "call"), check=("he
                 continue
             n += 1
             tm, _ = build_reparam(tree, names, dates, values[0].clone(), kind)
-            p = tm._internal_heights
+            p = tree_parameter(tm)
             cur = 0
             for k, op in enumerate(hist):
                 if op == "set":
@@ -130,3 +130,12 @@ def reparam_histories(kind, depth=4, reads=("heights", "bl", "call"), check=("he
                         return (hist[:k + 1], op, got.detach().tolist(), want.tolist()), n, seen
                 seen[k + 1].add((bool(getattr(tm, "heights_need_update", None)), bool(getattr(tm, "branch_lengths_need_update", None)), bool(getattr(tm, "lp_needs_update", None))))
     return None, n, seen
+
+
+def tree_parameter(tm):
+    """the (unique) parameter a tree model is built on, through the public `parameters()` API (not through a private attribute name,
+    so that renaming `_internal_heights` / `_branch_lengths` is not an alarm)"""
+    ps = list(tm.parameters())
+    if len(ps) != 1:
+        raise RuntimeError("tree model %r exposes %d parameters, expected exactly one" % (getattr(tm, "id", tm), len(ps)))
+    return ps[0]
